@@ -68,7 +68,7 @@ func symRequests(name string, forms bool) (v1.ResourceList, int64, int64) {
 }
 
 // VerifHarness_C13_totals: request and capacity totals equal the definition.
-// shape: [pods, containers, init containers, overhead(0/1), quantity forms(0/1)]
+// shape: [pods, containers, init containers, overhead(0/1), quantity forms(0/1), pod phases free(0/1)]
 func VerifHarness_C13_totals() {
 	P, C, I, ovh, forms := verifShape(0), verifShape(1), verifShape(2), verifShape(3), verifShape(4)
 	var pods []*v1.Pod
@@ -76,6 +76,10 @@ func VerifHarness_C13_totals() {
 	for p := 0; p < P; p++ {
 		ps := "p" + strconv.Itoa(p)
 		pod := &v1.Pod{ObjectMeta: metav1.ObjectMeta{Name: ps}}
+		// the definition does not look at the phase (Succeeded/Failed pods never reach the listers)
+		if verifShape(5) == 1 {
+			pod.Status.Phase = []v1.PodPhase{"", v1.PodPending, v1.PodRunning}[verifChoice(ps+".phase", 3)]
+		}
 		var sumCPU, sumMem, initCPU, initMem int64
 		for c := 0; c < C; c++ {
 			rl, cpu, mem := symRequests(ps+".c"+strconv.Itoa(c), forms == 1)
